@@ -161,7 +161,7 @@ NA = {
     'C16': 'check not built yet (kernel unit SEMK planned)',
     'C17': 'check not built yet (units QBK/CLI planned)',
     'C18': 'not applicable: relates execution k of one Program object to a fresh parse across the whole visitor/interpreter code; no per-function contract in reach expresses it (DESIGN.md §4 C18)',
-    'C19': 'not applicable: every deciding operation is std::filesystem plus recursion through the parser; a contract would only restate assumed file-system behaviour (DESIGN.md §4 C19)',
+    'C19': 'not applicable: every deciding operation (path resolution, load-once cache, cycle stack, package check, wildcard directories) is std::filesystem plus recursion through the parser; a contract would only restate assumed file-system behaviour (DESIGN.md §4 C19). The only clause within reach - the main-function count at the end of ModuleLoader::load - is under contract in unit LDSH as a helper of C13/C17, which is far too little to claim the property.',
     'C20': 'check not built yet (unit UPD planned)',
 }
 
